@@ -138,7 +138,7 @@ pub mod timer {
         pub fn new() -> Self { Self { limited: false, nodes_searched: 0 } }
         pub fn start(&mut self, l: Option<Duration>) {
             self.limited = l.is_some(); self.nodes_searched = 0;
-            unsafe { LAST_LIMIT_MS = match l { Some(d) => Some(d.as_millis() as u64), None => None }; }
+            unsafe { LAST_LIMIT_MS = match l { Some(d) => Some(crate::hcommon::dur_ms(d)), None => None }; }
             reset_clock();
         }
         pub fn increment_nodes(&mut self) {
